@@ -3,6 +3,7 @@ CONSTANTS
   Cap = 4
   WSizes <- MCWSizes
   RSizes <- MCRSizes
+  Vias = {"Write", "WriteString"}
   MaxOps = @@OPS@@
   Atomic = FALSE
 INVARIANT Inv
